@@ -85,6 +85,18 @@ Proof. exact plfs_cache_independent. Qed.
 Eval compute in "PA:C06_sender_level_independent_of_creator_cache"%string.
 Print Assumptions C06_sender_level_independent_of_creator_cache.
 
+(** When an event cites several auth events for one state slot (the specification rejects such an
+    event, ruma leaves that to the caller), the map [iterative_auth_check] builds from the event's
+    own auth events holds the one listed LAST: a function of the event's list, which is input, and
+    of no enumeration of a hash container.  No uniqueness hypothesis. *)
+Theorem C06_duplicate_auth_slot_last_listed_decides :
+  forall (st : store) (auths : list id) (acc m : list (key * event)),
+  own_auth_map st auths acc = Ok m ->
+  forall k, klookup k m = match own_last_from st k auths None with Some x => Some x | None => klookup k acc end.
+Proof. exact own_auth_map_last_wins. Qed.
+Eval compute in "PA:C06_duplicate_auth_slot_last_listed_decides"%string.
+Print Assumptions C06_duplicate_auth_slot_last_listed_decides.
+
 (** The boundary: without H_create (the power event [$b] does not cite the create event) two
     enumerations of [graph.keys()] give different sorted lists, and with a permissive auth
     function different resolved maps.  (ruma's own [auth_check] rejects an event that does not
